@@ -29,7 +29,7 @@ pub fn run(tape: &[u8], cx: &Cx) -> Outcome {
     let (ta, tb) = tape.split_at(tape.len() / 3);
     let mut t = Tape::new(ta);
     let mut tp = Tape::new(tb);
-    let prog = Prog::decode(&mut tp, &cfg());
+    let prog = Prog::decode(&mut tp, &cfg().scaled(cx.thorough));
     let mut o = Outcome::default();
     o.digest = fnv(&prog.digest_bytes());
     let RxCase { prog, mut mgr, terms, dfas } = match rx::setup(prog.clone()) {
